@@ -19,6 +19,7 @@ import (
 	"math/rand"
 	"os"
 	"path/filepath"
+	"runtime/pprof"
 	"strings"
 
 	"verifharness/trace"
@@ -37,6 +38,7 @@ type Config struct {
 	Faults   int      `json:"faults"`
 	MaxPlace int      `json:"maxplace"`
 	Replay   *History `json:"replay"`
+	MaxAll   int      `json:"maxall"`  // crash mode: writes up to this many bytes are torn at every byte offset
 	IDBase   int      `json:"idbase"`  // added to every history id (several runs are concatenated into one trace)
 	MinOps   int      `json:"minops"`  // small mode: smallest number of writes
 	Reduced  bool     `json:"reduced"` // small mode: first write is ins k1 v1 or del k1 (key / value symmetry)
@@ -261,6 +263,11 @@ func main() {
 	if err != nil {
 		fmt.Fprintln(os.Stderr, "config:", err)
 		os.Exit(2)
+	}
+	if pf := os.Getenv("HYD_PROF"); pf != "" {
+		f, _ := os.Create(pf)
+		pprof.StartCPUProfile(f)
+		defer pprof.StopCPUProfile()
 	}
 	slog.SetDefault(slog.New(slog.NewTextHandler(io.Discard, nil))) // the engine logs every failed load
 	work := os.Getenv("VERIF_WORK")
